@@ -1064,6 +1064,7 @@ QUICK_FONTS = [
     "cffLib/data/TestFDSelect4.ttx", "subset/data/TestCID-Regular.ttx", "ttLib/tables/data/aots/base.otf",
     "varLib/instancer/data/CFF2Instancer-VF-1.ttx", "merge/data/CFFFont1.ttx", "cffLib/data/CFFToCFF2-1.otf",
     "varLib/data/master_cff2_input/TestCFF2_Regular.ttx", "ttx/data/TestOTF.otf",
+    "subset/data/harfbuzz_repacker.ttx",
 ]
 FONT_OPS = ["desubroutinize", "remove_hints", "remove_unused_subroutines", "convert", "roundtrip", "subset"]
 
@@ -1145,10 +1146,10 @@ def _try(ctx, op, fn, *a, expected=(), **kw):
 
 
 # ---------------------------------------------------------------- driver: generated programs
-def _gen_item(rnd, dialect, numeric, style=None):
+def _gen_item(rnd, dialect, numeric, style=None, **genkw):
     from vmon.gen import c12_prog as GP
     cff2 = dialect.startswith("cff2")
-    d = GP.gen_program(rnd, cff2=cff2, numeric=numeric, style=style)
+    d = GP.gen_program(rnd, cff2=cff2, numeric=numeric, style=style, **genkw)
     p = d["program"]
     vs = 0
     if dialect == "cff2":
@@ -1725,7 +1726,12 @@ def _gfont_build(case, rnd, ctx):
     progs, refs = [], []
     shared = []
     while len(progs) < case["n"]:
-        d = _gen_item(rnd, gd, rnd.choice(["int", "int", "int", "fixed"]))
+        if rnd.random() < 0.3:
+            # hint replacement: several mid-path masks, masks recurring (-> shared hint-only subroutines)
+            d = _gen_item(rnd, gd, "int", style="ops", hints=rnd.choice(["hm", "hm", "cntr", "hm-implicit"]),
+                          mask_rate=0.7, reuse_masks=True)
+        else:
+            d = _gen_item(rnd, gd, rnd.choice(["int", "int", "int", "fixed"]))
         p = d["program"]
         r = _ref(p, cff2, blend)
         if isinstance(r, str) or r.errors or (not cff2 and (r.width != int(r.width) or r.width < 0)):
@@ -1757,7 +1763,8 @@ def _gfont_build(case, rnd, ctx):
                 shared.append((idxs, skip, npre - skip))
     pad = case.get("pad", 0)
     sp, local, glob = GP.subroutinize(rnd, progs, cff2=cff2, max_depth=rnd.choice([1, 2, 3, 5]),
-                                      pad_local=pad if case["part"] % 8 == 3 else 0, pad_global=pad, shared=shared)
+                                      pad_local=pad if case["part"] % 8 == 3 else 0, pad_global=pad, shared=shared,
+                                      mask_subrs=0.6)
     for i, q in enumerate(sp):
         r = _ref(q, cff2, blend, lsubrs=local, gsubrs=glob)
         if isinstance(r, str) or r.errors or r.path != refs[i].path or r.width != refs[i].width:
@@ -1765,6 +1772,20 @@ def _gfont_build(case, rnd, ctx):
             ctx.note("generator.subroutinised-rejected")
         else:
             ctx.note("subr-depth-%d" % r.subr_depth)
+    # evidence: charstrings (glyphs or subroutines) making >= 2 calls to hint-only subroutines
+    def _hint_only(body):
+        toks = [t for t in body if t != "return"]
+        return len(toks) == 2 and toks[0] in ("hintmask", "cntrmask")
+    lb, gb = GP._bias(len(local)), GP._bias(len(glob))
+    for body in list(sp) + list(local) + list(glob):
+        k = 0
+        for j, t in enumerate(body):
+            if t == "callsubr" and j and isinstance(body[j - 1], int) and 0 <= body[j - 1] + lb < len(local):
+                k += _hint_only(local[body[j - 1] + lb])
+            elif t == "callgsubr" and j and isinstance(body[j - 1], int) and 0 <= body[j - 1] + gb < len(glob):
+                k += _hint_only(glob[body[j - 1] + gb])
+        if k >= 2:
+            ctx.note("charstrings-with-2+-hint-only-subr-calls")
     names = GF.glyph_names(len(sp))
     if cff2:
         adv = {n: rnd.choice([500, 500, 500, 600, 607, 608, 392, 391, 1632, 1633, rnd.randint(0, 2000)]) for n in names}
